@@ -15,6 +15,11 @@ Definition ocontent_eqb : option content -> option content -> bool := option_eqb
 Definition dest_ok (olds : list (option content)) (new : content) (after : option content) : bool :=
   existsb (ocontent_eqb after) olds || ocontent_eqb after (Some new).
 
+(* a with-block that is left by an exception has no "complete new content": the destination may only
+   hold what it held before *)
+Definition dest_ok_aborted (olds : list (option content)) (after : option content) : bool :=
+  existsb (ocontent_eqb after) olds.
+
 (* "A with-block that exits normally always leaves the complete new content
    at the destination and no part file." *)
 Definition normal_exit_ok (new : content) (dest_after : option content) (part_present : bool) : bool :=
